@@ -1,0 +1,112 @@
+//go:build verif
+// +build verif
+
+// Copyright 2020 DataStax
+//
+// Licensed under the Apache License, Version 2.0 (the "License");
+// you may not use this file except in compliance with the License.
+// You may obtain a copy of the License at
+//
+//     http://www.apache.org/licenses/LICENSE-2.0
+//
+// Unless required by applicable law or agreed to in writing, software
+// distributed under the License is distributed on an "AS IS" BASIS,
+// WITHOUT WARRANTIES OR CONDITIONS OF ANY KIND, either express or implied.
+// See the License for the specific language governing permissions and
+// limitations under the License.
+
+package client
+
+import (
+	"context"
+	"net"
+	"time"
+
+	"github.com/datastax/go-cassandra-native-protocol/frame"
+	"github.com/datastax/go-cassandra-native-protocol/primitive"
+)
+
+// This file is only compiled with the build tag "verif". It exports unexported parts of the package to external
+// verification harnesses; it adds no behavior.
+
+// VerifInFlight wraps the unexported in-flight requests handler.
+type VerifInFlight struct {
+	h *inFlightRequestsHandler
+}
+
+// VerifNewInFlight creates an in-flight requests handler that is not attached to any connection.
+func VerifNewInFlight(ctx context.Context, maxInFlight int, maxPending int, timeout time.Duration) *VerifInFlight {
+	return &VerifInFlight{h: newInFlightRequestsHandler("verif", ctx, maxInFlight, maxPending, timeout)}
+}
+
+// Enqueue registers an outgoing frame, as CqlClientConnection.Send does before writing it.
+func (v *VerifInFlight) Enqueue(f *frame.Frame) (InFlightRequest, error) {
+	return v.h.onOutgoingFrameEnqueued(f)
+}
+
+// Deliver hands over an incoming frame, as the connection's incoming loop does for non-event frames.
+func (v *VerifInFlight) Deliver(f *frame.Frame) error {
+	return v.h.onIncomingFrameReceived(f)
+}
+
+// Close closes the handler, as CqlClientConnection.Close does.
+func (v *VerifInFlight) Close() {
+	v.h.close()
+}
+
+// Snapshot reports, under the handler's own lock, the number of free stream ids in the pool and the number of
+// in-flight requests with managed and with caller-chosen stream ids. Only meaningful at quiescent points.
+func (v *VerifInFlight) Snapshot() (free int, managedInFlight int, unmanagedInFlight int) {
+	v.h.inFlightLock.RLock()
+	defer v.h.inFlightLock.RUnlock()
+	if ids := v.h.streamIds; ids != nil {
+		free = len(ids)
+	}
+	for _, r := range v.h.inFlight {
+		if r.managedStreamId {
+			managedInFlight++
+		} else {
+			unmanagedInFlight++
+		}
+	}
+	return
+}
+
+// VerifNewClientConn creates a client connection over an arbitrary net.Conn.
+func VerifNewClientConn(
+	conn net.Conn,
+	ctx context.Context,
+	credentials *AuthCredentials,
+	compression primitive.Compression,
+	maxInFlight int,
+	maxPending int,
+	readTimeout time.Duration,
+	handlers []EventHandler,
+) (*CqlClientConnection, error) {
+	return newCqlClientConnection(conn, ctx, credentials, compression, maxInFlight, maxPending, readTimeout, handlers)
+}
+
+// VerifNewServerConn creates a server connection over an arbitrary net.Conn.
+func VerifNewServerConn(
+	conn net.Conn,
+	ctx context.Context,
+	credentials *AuthCredentials,
+	maxInFlight int,
+	idleTimeout time.Duration,
+	handlers []RequestHandler,
+	rawHandlers []RawRequestHandler,
+	onClose func(*CqlServerConnection),
+) (*CqlServerConnection, error) {
+	if onClose == nil {
+		onClose = func(*CqlServerConnection) {}
+	}
+	return newCqlServerConnection(conn, ctx, credentials, maxInFlight, idleTimeout, handlers, rawHandlers, onClose)
+}
+
+// VerifAddr returns the address the server is listening on, or nil if it is not started.
+func (server *CqlServer) VerifAddr() net.Addr {
+	if server.listener == nil {
+		return nil
+	}
+	return server.listener.Addr()
+}
